@@ -568,6 +568,10 @@ def run_direct_impl(cfg, fill=None):
         s, t = p['name'].split('.')
         for lab, per in zip(cfg['labels'], p['corr']):
             arr = np.array([[c_to_py(z) for z in g] for g in per], np.complex64)       # (T, cn)
+            # "not a number" = ANY component NaN (np.isnan of a complex): a third each nan+nanj, nan+0j, 0+nanj
+            nanpos = np.argwhere(np.isnan(arr))
+            for q, (a_, b_) in enumerate(nanpos):
+                arr[a_, b_] = [complex(np.nan, np.nan), complex(np.nan, 0.0), complex(0.0, np.nan)][q % 3]
             if p['form'] == 'array1d':
                 sensor = arr[:, 0].copy()
             elif p['form'] == 'categorical':
